@@ -674,6 +674,11 @@ func genC17(repo string) (string, error) {
 		lus = append(lus, fmt.Sprintf("(%s, %s)", c17LeanStr(site[1]+"."+site[2]), LeanStrList(args)))
 	}
 	fmt.Fprintf(&sb, "/-- (processor, arguments of its statement.UnmarshalJSON calls) -/\ndef leafUnmarshals : List (String × List String) := [%s]\n", strings.Join(lus, ", "))
+	r8, err := genC17Round8(repo)
+	if err != nil {
+		return "", err
+	}
+	sb.WriteString(r8)
 	return sb.String(), nil
 }
 
